@@ -15,7 +15,6 @@ import (
 	"os"
 	"path/filepath"
 	"runtime"
-	"runtime/pprof"
 	"sort"
 	"strings"
 	"testing"
@@ -260,7 +259,7 @@ func vc20Requirements() (reqs []vc20Requirement) {
 			return cl.Enabled && cl.Resume > cl.Stop, fmt.Sprintf("resume %d stop %d", cl.Resume, cl.Stop)
 		},
 	}, {
-		name: "cache.size >= 0",
+		name:   "cache.size >= 0",
 		broken: func(c *configuration) (bool, string) { return c.Cache.Size < 0, fmt.Sprint(c.Cache.Size) },
 	}, {
 		name: "dns.tcp_idle_timeout <= 6553.5s",
@@ -446,6 +445,71 @@ func vc20Requirements() (reqs []vc20Requirement) {
 	}
 
 	reqs = append(reqs, vc20Requirement{
+		name: "filters.ede_enabled is true when sde_enabled is",
+		broken: func(c *configuration) (bool, string) {
+			return c.Filters.SDEEnabled && !c.Filters.EDEEnabled, "sde without ede"
+		},
+	}, vc20Requirement{
+		name: "upstream.servers and upstream.fallback.servers are not empty",
+		broken: func(c *configuration) (bool, string) {
+			return len(c.Upstream.Servers) == 0 || len(c.Upstream.Fallback.Servers) == 0, "empty"
+		},
+	}, vc20Requirement{
+		name: "ratelimit.allowlist.type is backend or consul",
+		broken: func(c *configuration) (bool, string) {
+			typ := c.RateLimit.Allowlist.Type
+
+			return typ != "backend" && typ != "consul", typ
+		},
+	}, vc20Requirement{
+		name: "cache.type is simple or ecs",
+		broken: func(c *configuration) (bool, string) {
+			typ := c.Cache.Type
+
+			return typ != "simple" && typ != "ecs", typ
+		},
+	}, vc20Requirement{
+		name: "check.kv.type is backend, cache, consul or redis",
+		broken: func(c *configuration) (bool, string) {
+			typ := c.Check.RemoteKV.Type
+
+			return typ != "backend" && typ != "cache" && typ != "consul" && typ != "redis", typ
+		},
+	}, vc20Requirement{
+		name: "server_groups.*.servers.*.protocol is dns, dnscrypt, https, quic or tls",
+		broken: func(c *configuration) (bool, string) {
+			for _, g := range c.ServerGroups {
+				for _, s := range g.Servers {
+					switch s.Protocol {
+					case "dns", "dnscrypt", "https", "quic", "tls":
+						// Go on.
+					default:
+						return true, string(s.Protocol)
+					}
+				}
+			}
+
+			return false, ""
+		},
+	}, vc20Requirement{
+		name: "ddr records: a non-zero https_port differs from tls_port, doh_path is set with https_port, some port is set",
+		broken: func(c *configuration) (bool, string) {
+			for _, g := range c.ServerGroups {
+				for _, recs := range []map[string]*ddrRecord{g.DDR.DeviceRecords, g.DDR.PublicRecords} {
+					for name, r := range recs {
+						switch {
+						case r.HTTPSPort != 0 && r.HTTPSPort == r.TLSPort,
+							r.HTTPSPort != 0 && r.DoHPath == "",
+							r.HTTPSPort == 0 && r.TLSPort == 0 && r.QUICPort == 0:
+							return true, fmt.Sprintf("%s: %+v", name, *r)
+						}
+					}
+				}
+			}
+
+			return false, ""
+		},
+	}, vc20Requirement{
 		name: "upstream.servers.*.timeout > 0 (also fallback)",
 		broken: func(c *configuration) (bool, string) {
 			for _, s := range append(append([]*upstreamServerConfig{}, c.Upstream.Servers...), c.Upstream.Fallback.Servers...) {
@@ -805,6 +869,44 @@ func (ck *vc20Checker) vc20Eval(t vc20T, muts []vc20Mutation, pair bool) {
 	}
 }
 
+// vc20Thresholds returns the values tried for a pair of sibling integers.
+func vc20Thresholds(a, b *vc20Field) (thresholds []int64) {
+	oa, _ := vc20OrigInt(a.orig)
+	ob, _ := vc20OrigInt(b.orig)
+	seen := map[int64]struct{}{}
+	for _, v := range []int64{0, 1, 2, 3, oa - 1, oa, oa + 1, ob - 1, ob, ob + 1, math.MaxInt32, math.MaxInt64} {
+		if _, dup := seen[v]; !dup {
+			seen[v] = struct{}{}
+			thresholds = append(thresholds, v)
+		}
+	}
+
+	return thresholds
+}
+
+// vc20ThresholdPair returns the mutations that set a to va and b to vb.
+func vc20ThresholdPair(a, b *vc20Field, va, vb int64) (muts []vc20Mutation) {
+	cls := func(x, y int64) (s string) {
+		switch {
+		case x == 0:
+			return "zero"
+		case x < 0:
+			return "neg"
+		case x < y:
+			return "below-sibling"
+		case x == y:
+			return "equal-sibling"
+		default:
+			return "above-sibling"
+		}
+	}
+
+	return []vc20Mutation{
+		{field: a, val: vc20Value{class: cls(va, vb), v: va}},
+		{field: b, val: vc20Value{class: cls(vb, va), v: vb}},
+	}
+}
+
 // vc20DrawMutations draws 1-4 mutations (biased to one), or a threshold pair.
 func (ck *vc20Checker) vc20DrawMutations(t *rapid.T, weighted []int) (muts []vc20Mutation, pair bool) {
 	fx := ck.fx
@@ -817,30 +919,11 @@ func (ck *vc20Checker) vc20DrawMutations(t *rapid.T, weighted []int) (muts []vc2
 		}
 
 		a, b := fx.fields[grp[i]], fx.fields[grp[j]]
-		oa, _ := vc20OrigInt(a.orig)
-		ob, _ := vc20OrigInt(b.orig)
-		thresholds := []int64{0, 1, 2, 3, oa - 1, oa, oa + 1, ob - 1, ob, ob + 1, math.MaxInt32, math.MaxInt64}
+		thresholds := vc20Thresholds(a, b)
 		va := rapid.SampledFrom(thresholds).Draw(t, "a")
 		vb := rapid.SampledFrom(thresholds).Draw(t, "b")
-		cls := func(x, y int64) (s string) {
-			switch {
-			case x == 0:
-				return "zero"
-			case x < 0:
-				return "neg"
-			case x < y:
-				return "below-sibling"
-			case x == y:
-				return "equal-sibling"
-			default:
-				return "above-sibling"
-			}
-		}
 
-		return []vc20Mutation{
-			{field: a, val: vc20Value{class: cls(va, vb), v: va}},
-			{field: b, val: vc20Value{class: cls(vb, va), v: vb}},
-		}, true
+		return vc20ThresholdPair(a, b, va, vb), true
 	}
 
 	if len(fx.groups) > 0 && rapid.IntRange(0, 3).Draw(t, "groupMode") == 0 {
@@ -935,12 +1018,6 @@ func TestVerifC20Singles(t *testing.T) {
 	}
 
 	st.Extra("goroutines_at_end", runtime.NumGoroutine())
-	if p := os.Getenv("VERIF_C20_GOROUTINES"); p != "" {
-		if f, err := os.Create(p); err == nil {
-			_ = pprof.Lookup("goroutine").WriteTo(f, 1)
-			_ = f.Close()
-		}
-	}
 	col.report()
 }
 
@@ -972,6 +1049,38 @@ func TestVerifC20Switches(t *testing.T) {
 						col.run(func() {
 							ck.vc20Eval(col, []vc20Mutation{{field: a, val: va}, {field: b, val: vb}}, false)
 						})
+					}
+				}
+			}
+		}
+	}
+
+	st.Extra("goroutines_at_end", runtime.NumGoroutine())
+	col.report()
+}
+
+// TestVerifC20Thresholds enumerates, for every pair of integer properties of
+// one object (stop and resume, size and ecs_size, the ports of a DDR record,
+// count and subnet_key_len), all combinations of boundary values in both
+// orders.
+func TestVerifC20Thresholds(t *testing.T) {
+	st := vstat.New("C20", "cmd.thresholds", "bounded-exhaustive: per mapping, every pair of integer siblings x boundary values {0,1,2,3,each original and its neighbours,2^31-1,2^63-1} of both; "+vc20Rule,
+		"accepted", "rejected-named", "exercise-full", "threshold-pair",
+		"val:zero", "val:below-sibling", "val:equal-sibling", "val:above-sibling")
+	st.SetExhaustive()
+	st.Finish(t)
+
+	ck := vc20NewChecker(t, st)
+	col := &vc20Collector{t: t}
+	fx := ck.fx
+	for _, grp := range fx.siblings {
+		for i, ai := range grp {
+			for _, bi := range grp[i+1:] {
+				a, b := fx.fields[ai], fx.fields[bi]
+				thresholds := vc20Thresholds(a, b)
+				for _, va := range thresholds {
+					for _, vb := range thresholds {
+						col.run(func() { ck.vc20Eval(col, vc20ThresholdPair(a, b, va, vb), true) })
 					}
 				}
 			}
